@@ -1,6 +1,7 @@
 package rules
 
 import (
+	"strconv"
 	"fmt"
 	"go/ast"
 	"go/constant"
@@ -109,6 +110,12 @@ func describeJoined(p bpath, upto int, text string) joinDesc {
 					if k := indexTop(w, "+"); k > 0 && isStringLit(w[:k]) && strings.Contains(w[k+1:], d.List+"[#1]") {
 						d.Sep = w[:k]
 						d.Elem = strings.ReplaceAll(w[k+1:], d.List+"[#1]", "@")
+						// the separator literal may have been joined with the literal the element text starts with
+						// (`", "` then `"stack["`): the separator is what the first element's text does not have
+						if lit, err := strconv.Unquote(w[:k]); err == nil && strings.HasPrefix(lit, ", ") && len(lit) > 2 {
+							d.Sep = `", "`
+							d.Elem = strconv.Quote(lit[2:]) + "+" + d.Elem
+						}
 						continue
 					}
 				}
